@@ -108,6 +108,26 @@ func genMetaInfo(r *rng.R, info *nfpm.Info) {
 		info.Deb.Triggers.Interest = []string{"trig-a", "trig-b"}
 		info.Deb.Triggers.ActivateNoAwait = []string{"/usr/share/x"}
 		info.Deb.Triggers.InterestAwait = genRelList(r)
+	} else if r.Chance(1, 2) {
+		// each of the six directives on its own or with any of the others
+		if r.Bool() {
+			info.Deb.Triggers.Interest = []string{"trig-i"}
+		}
+		if r.Bool() {
+			info.Deb.Triggers.InterestAwait = []string{"trig-ia"}
+		}
+		if r.Bool() {
+			info.Deb.Triggers.InterestNoAwait = []string{"trig-ina", "/usr/lib/x"}
+		}
+		if r.Bool() {
+			info.Deb.Triggers.Activate = []string{"trig-a"}
+		}
+		if r.Bool() {
+			info.Deb.Triggers.ActivateAwait = []string{"trig-aa"}
+		}
+		if r.Bool() {
+			info.Deb.Triggers.ActivateNoAwait = []string{"trig-ana"}
+		}
 	}
 	info.IPK.Predepends, info.IPK.Tags = genRelList(r), genRelList(r)
 	if r.Bool() {
@@ -552,6 +572,35 @@ func runC02(c *Ctx) error {
 						}
 					}}
 					metaCase(c, fam, f, s2, map[string]any{"arch": a, "override": ov, "platform": "freebsd where the format allows it", "file_name_asked_first": true})
+				}
+			}
+		}
+	}
+	// ---- the GoReleaser float suffix of mips architectures: the documented rule is "mips…softfloat / …hardfloat is the
+	// architecture without the suffix", stated here independently of nfpm.WithDefaults (whose result feeds the model above)
+	famM := c.Rep.Family("mips-float-suffix", "exhaustive: {mips, mipsle, mips64, mips64le} x {softfloat, hardfloat} x 5 formats through nfpm.WithDefaults: the architecture the package states must be the one it states for the same architecture without the suffix, and for plain `mips` the documented one (deb, rpm: mips; elsewhere verbatim)")
+	famM.Exhaustive = true
+	for _, f := range Formats {
+		stated := func(a string) (string, bool) {
+			pm, _, err := buildMeta(f, func(info *nfpm.Info) { info.Arch = a; nfpm.WithDefaults(info) })
+			return pm.Arch, err == nil
+		}
+		for _, base := range []string{"mips", "mipsle", "mips64", "mips64le"} {
+			want, ok := stated(base)
+			famM.Eval(f+"|"+base, ok)
+			if !ok {
+				continue
+			}
+			if base == "mips" && want != "mips" {
+				c.Rep.Find(report.Finding{Property: "C02", Family: "mips-float-suffix", Shape: f + ":architecture-differs-from-documented:mips",
+					What: fmt.Sprintf("arch mips: the %s package states architecture %q, the documented translation is mips", f, want), Input: map[string]any{"format": f, "arch": base}})
+			}
+			for _, suf := range []string{"softfloat", "hardfloat"} {
+				got, ok := stated(base + suf)
+				famM.Eval(f+"|"+base+suf, ok)
+				if ok && got != want {
+					c.Rep.Find(report.Finding{Property: "C02", Family: "mips-float-suffix", Shape: f + ":float-suffix-not-stripped-to-the-architecture",
+						What: fmt.Sprintf("arch %s: the %s package states architecture %q, for %s it states %q", base+suf, f, got, base, want), Input: map[string]any{"format": f, "arch": base + suf}})
 				}
 			}
 		}
